@@ -25,9 +25,16 @@ def lazyResult : Lazy.Result :=
       && (0 < generatedLazyGetters) && (generatedLazyGettersConforming == generatedLazyGetters)
       && (0 < reflectLazySites) && (reflectLazySitesReloading == reflectLazySites) then .reload else .mine
 
-/-- the lazy-field protocol of the code, for any presence bit, buffer and (pure) decoder -/
-def lazyCfg {β α : Type} (present : Bool) (buf : β) (decode : β → α) : Lazy.Cfg β α :=
-  { publish := lazyPublish, result := lazyResult, present := present, buf := buf, decode := decode }
+/-- the one publishing CAS is the last action of `lazyUnmarshal`, after every index entry of the
+field (non-contiguous wire occurrences) has been merged into the private object -/
+def lazyTiming : Lazy.Timing :=
+  if lazyUnmarshalPublishesAfterAllEntries then .afterAll else .insideLoop
+
+/-- the lazy-field protocol of the code, for any presence bit, buffer, number of index entries and
+(pure) decoder -/
+def lazyCfg {β α : Type} (present : Bool) (buf : β) (entries : Nat) (decodeK : β → Nat → α) : Lazy.Cfg β α :=
+  { publish := lazyPublish, result := lazyResult, timing := lazyTiming, present := present, buf := buf,
+    entries := entries, decodeK := decodeK }
 
 /-- the sync.Map caches of internal/impl/legacy_*.go are the same publish-once protocol
 (`Load`; compute; `LoadOrStore`; return the stored value) -/
@@ -35,7 +42,8 @@ def legacyCachePublish : Lazy.Publish :=
   if (0 < legacyCaches) && (legacyCachesLoadOrStore == legacyCaches) then .cas else .store
 
 def legacyCacheCfg {β α : Type} (key : β) (compute : β → α) : Lazy.Cfg β α :=
-  { publish := legacyCachePublish, result := .reload, present := true, buf := key, decode := compute }
+  { publish := legacyCachePublish, result := .reload, timing := .afterAll, present := true, buf := key,
+    entries := 0, decodeK := fun b _ => compute b }
 
 /-! ### C19 -/
 
